@@ -345,3 +345,37 @@ func init() {
 		Outside: "programs longer than 4 steps (ladders deeper than 6), leaf shapes other than [2]",
 	})
 }
+
+func lossItems(maxb, maxc int64, upstreams []int64) []Item {
+	var out []Item
+	for _, l := range []string{"MSE", "BCE", "CE"} {
+		for _, u := range upstreams {
+			out = append(out, Item{P: map[string]int64{"maxb": maxb, "maxc": maxc, "upstream": u}, S: map[string]string{"loss": l}})
+		}
+	}
+	return out
+}
+
+func init() {
+	allChecks = append(allChecks, &Check{
+		ID: "C12", Level: "model_checking",
+		Harnesses: []Harness{
+			{Name: "C12_loss", Pkg: "zzh", Func: "H_C12_loss", Reach: []string{"done"},
+				What:  "MSE/BCE/CE value vs the formula with clipping as ite; scalar result, finite, non-negative, same term for every tracked/untracked combination",
+				Items: tiered(func() []Item { return lossItems(2, 2, []int64{0}) }, func() []Item { return lossItems(3, 3, []int64{0}) })},
+		},
+		Assumptions: []string{numericModel, "|prediction|, |target| <= 1e6",
+			"math.Log is an uninterpreted function with the sign contract (x>=1 => log>=0, 0<x<=1 => log<=0); finiteness means both log arguments are > 0 in exact arithmetic (1-(1-1e-12) is exactly 1e-12 here; its float64 rounding is outside the claim)"},
+		Outside: "batch sizes / class counts above 3",
+	})
+	allChecks = append(allChecks, &Check{
+		ID: "C13", Level: "model_checking",
+		Harnesses: []Harness{
+			{Name: "C13_lossgrad", Pkg: "zzh", Func: "H_C13_lossgrad", Reach: []string{"done"},
+				What:  "gradient of MSE/BCE/CE w.r.t. the prediction (tracked leaf, or q*r with the chain continued to q and r) vs the analytic derivative; 0 where clipped; finite at exactly 0 and 1",
+				Items: tiered(func() []Item { return lossItems(2, 2, []int64{0, 1}) }, func() []Item { return lossItems(3, 3, []int64{0, 1}) })},
+		},
+		Assumptions: []string{numericModel, "targets in [0,1]; BCE/CE predictions in [0,1] and apart from the two clipping bounds by more than 1e-200 (no float64 other than the bound lies within the library's 1e-240 tie tolerance)"},
+		Outside:     "batch sizes / class counts above 3; upstream computations other than an element-wise product",
+	})
+}
